@@ -20,15 +20,16 @@ NoProg == <<>>
 NoProcs == {}
 NoDebris == {}
 NoKeyShards == <<>>
+NoPreRO == {}
 
 VARIABLES l, rn, skip, drift, nops, cov
 
 tvars == <<l, rn, skip, drift, nops, cov, pc, loc, fs, clock, nino, aux, last>>
 
-Modeled(e) == e.api \in {"get", "touch", "set", "put"} /\ ~e.world
+Modeled(e) == ~e.world /\ (IF FrontKind = "stack" THEN e.api \in {"get", "touch", "ensure"} ELSE e.api \in {"get", "touch", "set", "put"})
 
 \* Does recorded call e have the shape of the model's call c0?
-SamePath(a, b, lbl) == a.d = b.d /\ (a.n = b.n \/ (IsTempDir(b.d) /\ lbl = "a3"))
+SamePath(a, b, lbl) == a.d = b.d /\ (a.n = b.n \/ (IsTempDir(b.d) /\ lbl \in {"a3", "ec"}))
 FlagsOK(e, c0) == Has(e, "flags") /\ e.flags = c0.flags
 Matches(e, c0, lbl) ==
     /\ e.call = c0.call
@@ -104,8 +105,9 @@ CallEvent(e) ==
     LET p == e.p IN
     IF Modeled(e) /\ rn.front = FrontKind THEN
         /\ skip' = Put(skip, p, FALSE)
-        /\ pc' = Put(pc, p, IF e.api = "get" THEN "g1" ELSE IF e.api = "touch" THEN "t1" ELSE IF FrontKind = "plain" THEN "a1" ELSE "s0")
-        /\ loc' = Put(loc, p, [IdleLoc EXCEPT !.opi = e.opi, !.cap = rn.cap, !.bound = (FrontKind = "plain"), !.h1 = Root, !.h2 = Root, !.est = [bd \in BaseDirs |-> 0],
+        /\ pc' = Put(pc, p, IF e.api \in {"get", "ensure"} THEN "g1" ELSE IF e.api = "touch" THEN "t1" ELSE IF FrontKind = "plain" THEN "a1" ELSE "s0")
+        /\ loc' = Put(loc, p, [IdleLoc EXCEPT !.opi = e.opi, !.cap = rn.cap, !.bound = (FrontKind # "sharded"), !.h1 = Root,
+                                 !.h2 = IF FrontKind = "stack" /\ rn.hasro THEN RORoot ELSE Root, !.est = [bd \in BaseDirs |-> 0],
                                  !.op = [api |-> e.api, key |-> e.key, val |-> IF Has(e, "val") THEN e.val ELSE "",
                                          chunks |-> IF Has(e, "chunks") THEN e.chunks ELSE 1]])
     ELSE /\ skip' = Put(skip, p, TRUE) /\ UNCHANGED <<pc, loc>>
@@ -127,6 +129,7 @@ TNext ==
        IF e.e = "reset" THEN
             /\ rn' = [job |-> e.job, run |-> e.run,
                        front |-> IF Has(e, "cfg") /\ Has(e.cfg, "front") THEN e.cfg.front ELSE "?",
+                       hasro |-> Has(e, "cfg") /\ Has(e.cfg, "roots") /\ \E i \in 1..Len(e.cfg.roots) : e.cfg.roots[i].role = "ro",
                        cap |-> IF Has(e, "cfg") /\ Has(e.cfg, "shardcap") /\ FrontKind = "sharded" THEN e.cfg.shardcap
                                ELSE IF Has(e, "cfg") /\ Has(e.cfg, "cap") THEN e.cfg.cap ELSE 1000000]
             /\ skip' = <<>> /\ drift' = <<>> /\ pc' = <<>> /\ loc' = <<>> /\ nops' = 0
